@@ -146,9 +146,10 @@ def rw_split_sample(rng, spec, obs, poi):
         return None
     with_stat = [(c, smp) for c, smp in cands if any(m["type"] == "staterror" for m in smp["modifiers"])]
     c, smp = rng.choice(with_stat if with_stat and rng.random() < 0.7 else cands)
-    f = rng.choice([0.25, 0.5, 0.375])
-    nb = len(smp["data"])
     has_stat = any(m["type"] == "staterror" for m in smp["modifiers"])
+    # without MC-stat uncertainties one part may be negative (interference-like template): the sum is what counts
+    f = rng.choice([0.25, 0.5, 0.375] if has_stat else [0.25, 0.5, 0.375, -0.3, 1.4])
+    nb = len(smp["data"])
     # per-bin yield fractions of the first part; with a staterror one bin of the first part may be left with zero
     # yield but a non-zero MC uncertainty (negative-weight samples do that): the quadrature sum must still count it
     fr = [f] * nb
@@ -169,7 +170,7 @@ def rw_split_sample(rng, spec, obs, poi):
         parts.append({"name": smp["name"] + tag, "data": [v * q for v, q in zip(smp["data"], frac)], "modifiers": mods})
     i = c["samples"].index(smp)
     c["samples"][i:i + 1] = parts
-    return s, dict(obs), poi, {"kind": "split-sample(merge inverse)" + (", one part with zero yield under staterror" if 0.0 in fr else (", staterror in quadrature" if has_stat else ""))}
+    return s, dict(obs), poi, {"kind": "split-sample(merge inverse)" + (", one part negative" if not 0 <= f <= 1 else "") + (", one part with zero yield under staterror" if 0.0 in fr else (", staterror in quadrature" if has_stat else ""))}
 
 
 def rw_scale_signal(rng, spec, obs, poi):
@@ -191,11 +192,15 @@ REWRITES = [rw_permute, rw_rename, rw_zero_sample, rw_null_sys, rw_split_channel
 
 
 # ------------------------------------------------------------------ observation of one side
+# model options of the case at hand (both spellings of a model are always built with the same options)
+MODEL_KW = {}
+
+
 def observe(spec, obs, poi, mu, want_limit=False, fit_kw=None):
     import pyhf
     from pyhf import exceptions as E
 
-    model = pyhf.Model(copy.deepcopy(spec), poi_name=poi)
+    model = pyhf.Model(copy.deepcopy(spec), poi_name=poi, **MODEL_KW)
     data = [x for c in model.config.channels for x in obs[c]] + list(model.config.auxdata)
     out = {}
     kw = fit_kw or {}
@@ -219,7 +224,7 @@ def robust_objectives(spec, obs, poi, mu, seed, fit_kw=None, nstarts=5):
     import pyhf
     from pyhf import exceptions as E
 
-    model = pyhf.Model(copy.deepcopy(spec), poi_name=poi)
+    model = pyhf.Model(copy.deepcopy(spec), poi_name=poi, **MODEL_KW)
     cfg = model.config
     data = [x for c in cfg.channels for x in obs[c]] + list(cfg.auxdata)
     rng = random.Random(seed)
@@ -273,6 +278,10 @@ def check_model(case, shard):
     spec, obs, poi, mu = case["spec"], case["obs"], "mu", case["mu"]
     backend = case["backend"]
     want_limit = case.get("limit", False)
+    MODEL_KW.clear()
+    MODEL_KW.update(case.get("model_kw") or {})
+    if MODEL_KW:
+        shard.covered("model_options", str(sorted(MODEL_KW.items())))
     try:
         base = observe(spec, obs, poi, mu, want_limit)
     except E.FailedMinimization:
@@ -439,7 +448,12 @@ def make_case(rng, backend, tier):
     pairs = [rng.sample(range(len(REWRITES)), 2) for _ in range(2 if tier == "quick" else 6)]
     if with_free_norm:
         singles, pairs = [[0], [1], [1]], [[0, 1], [1, 0]]
-    return {"spec": spec, "obs": obs, "mu": rng.choice([0.8, 1.0, 1.5, 2.0]), "chains": singles + pairs, "backend": backend, "seed": rng.randrange(1 << 30)}
+    case = {"spec": spec, "obs": obs, "mu": rng.choice([0.8, 1.0, 1.5, 2.0]), "chains": singles + pairs, "backend": backend, "seed": rng.randrange(1 << 30)}
+    # clipping of the summed bin contents at zero is a model option under which every listed rewrite still preserves the
+    # likelihood (per-sample clipping would not: merging samples changes what is clipped)
+    if rng.random() < 0.3:
+        case["model_kw"] = {"clip_bin_data": 0.0}
+    return case
 
 
 def plan(tier, seed):
